@@ -116,6 +116,11 @@ class LockStep:
             return 'host', info, None, pre, post, ref
         if k == 'notimpl':
             self.bump('emu_notimpl')
+            self.res['sets'].setdefault('rows_emu_notimpl_while_ref_ok', set()).add('%s:%s' % (rowname, ','.join(ref.events) or 'completed'))
+            if ref.events == ['hyptrap']:
+                # the emulator takes the Hyp trap and then still reaches its mock back-end: the trap itself is judged
+                self.bump('hyp_trap_then_notimpl_judged')
+                return 'ok', info, RS.compare(ref, post), pre, post, ref
             return 'notimpl', info, None, pre, post, ref
         if info.get('undefined_failed_cond'):
             # either NOP or Undefined exception is architectural
